@@ -28,7 +28,14 @@ Tx(id, to, amt, data) == [outer |-> "recv", origin |-> "ethereum", inner |-> "tr
 RawPayloads ==
     [in_n  |-> Tx("iA1", "bob", 1, "none"), in_c |-> Tx("cS", "bob", 1, "none"), in_c3 |-> Tx("cS", "alice", 3, "none"),
      in_d  |-> Tx("iA1", "app", 1, "d1"),   in_t |-> Tx("iA1", "trap", 1, "d1"), in_0 |-> Tx("iA1", "bob", 0, "none"),
-     in_u  |-> Tx("r9", "bob", 1, "none")]
+     in_u  |-> Tx("r9", "bob", 1, "none"),
+     \* announced amounts beyond i128 (2^128 + 1, 2^127): must be refused, never credited in part
+     in_big  |-> [Tx("iA1", "bob", 1, "none") EXCEPT !.mut = [kind |-> "setinner", off |-> 128,
+                    bytes |-> A!Zeros(15) \o <<1>> \o A!Zeros(15) \o <<1>>]],
+     in_cbig |-> [Tx("cS", "bob", 1, "none") EXCEPT !.mut = [kind |-> "setinner", off |-> 128,
+                    bytes |-> A!Zeros(15) \o <<1>> \o A!Zeros(15) \o <<1>>]],
+     in_127  |-> [Tx("iA1", "bob", 1, "none") EXCEPT !.mut = [kind |-> "setinner", off |-> 128,
+                    bytes |-> A!Zeros(16) \o <<128>> \o A!Zeros(15)]]]
 MC_Payloads == WithDecodes(RawPayloads)
 
 Callers == IF Small THEN {"alice"} ELSE {"alice", "bob"}
